@@ -1,9 +1,10 @@
 """C02 — parse() is text-preserving."""
+import itertools
 import gen, streams, grammar
 from common import *
 import sqlparse
 
-RULE = 'inputs: corpus, g2/g3 junk, grammar scripts with random layout/comments, procedural blocks; every node of every tree is checked; non-trivial = distinct input with at least one group node'
+RULE = 'inputs: corpus, g2/g3 junk, grammar scripts with random layout/comments, procedural blocks, every sequence (<= 3) of separator material (blanks, every line-break kind, every comment kind, `;`, GO) in front of / between / after statements, one probe per code point (all below U+3000, a stride above; after a letter, between tokens, at a statement boundary); every node of every tree is checked; non-trivial = distinct input with at least one group node'
 ASSUMPTIONS = ['grouping model tied by S-TREE (full trees); lexer/splitter by S-LEX/S-SPLIT', 'M3 equivalence (children first, then parent loop; reached-flags) validated by S-TREE, not proved about Python']
 PARTIAL = []
 
@@ -47,8 +48,42 @@ def inputs(ctx, nj, ng):
     return ins
 
 
+# --- red-team hardening: what sits at the edges of a statement, and every character class ------------------------------------------
+BOUNDARY = [' ', '\t', '\n', '\r\n', '\r', '\n\n', '-- c\n', '--c', '/* c */', '/*+ h */', '# c\n', ';', 'GO', 'x']
+
+
+def boundary_sweep(maxlen=3):
+    """every sequence of at most `maxlen` pieces of separator material, placed in front of a statement, between two statements, after a
+    terminated statement and after an unterminated one (the splitter decides per token who owns it; nothing may get lost on the way)"""
+    for n in range(0, maxlen + 1):
+        for seq in itertools.product(BOUNDARY, repeat=n):
+            m = ''.join(seq)
+            yield m + 'select 1'
+            yield 'select 1;' + m + 'select 2'
+            yield 'select 1;' + m
+            yield 'select 1 ' + m
+
+
+def codepoint_sweep(ctx):
+    """one probe per code point: after a letter (combining marks, compatibility characters), as a token of its own, directly after a
+    terminator and as the last character — anything that rewrites, drops or merges a character class shows here"""
+    stride = ctx.n(97, 7)
+    cps = list(range(0, 0x3000)) + list(range(0x3000 + ctx.seed % stride, 0x110000, stride)) + gen.ODD
+    for cp in cps:
+        ch = chr(cp)
+        yield 'a' + ch + ' b;' + ch + '\n e' + ch + ' ' + ch
+
+
 def run(ctx):
     ins = [c['input'] for c in streams.corpus('C02')] + inputs(ctx, ctx.n(2500, 50000), ctx.n(500, 10000))
+    nb = 0
+    for s in boundary_sweep(3):
+        oracle(ctx, s)
+        nb += 1
+    for s in codepoint_sweep(ctx):
+        oracle(ctx, s)
+        nb += 1
+    ctx.count('boundary/code-point sweeps', nb)
     for s in ins:
         oracle(ctx, s)
     ctx.samples += [short(s, 80) for s in ins[-2:]]
